@@ -18,7 +18,9 @@ def run(tier, seed):
     run.add_tlc(r2, "Chunks: per-slab y/x cuts, exhaustive (reduced cut options)")
     r3 = E.run_chunks(M, [1, 2, (1, 3, 2)], CUTS, "nested", ["xfast", "rotated", "reversed"], simulate=(6 if tier == "quick" else 60), seed=seed + 1)
     run.add_tlc(r3, "Chunks: fully nested cuts, simulated")
-    for r in (r1, r2, r3):
+    r5 = E.run_chunks(M, [1, (1, 2, 1)], CUTS_SMALL, "xouter", ["xfast", "reversed"], simulate=(12 if tier == "quick" else 120), seed=seed + 3)
+    run.add_tlc(r5, "Chunks: decompositions nested the other way round (x-slabs outermost) - outside the supported family, simulated")
+    for r in (r1, r2, r3, r5):
         if r.violated:
             raise RuntimeError("Chunks spec violates " + r.violated)
         decs += [p for p in r.printed if "chunks" in p]
@@ -72,7 +74,8 @@ def run(tier, seed):
         s = sjobs[len(sjobs) // 2][0]
         run.sample({"restarts": s["restarts"], "layout": s["layout"], "levels": s["nlev"], "reads": s["reads"][:2]})
     run.rule = ("every Chunks state (nested rectilinear decomposition x ghost width x enumeration order) is joined with the real join_chunks/fixij and "
-                "read through generated CarpetIOHDF5-shaped directories in the four layouts; every ETSim state (restart sequences with overlapping "
+                "read through generated CarpetIOHDF5-shaped directories in the four layouts; decompositions nested the other way round and sets with one "
+                "piece missing must raise (or, for the former, return exactly the grid); every ETSim state (restart sequences with overlapping "
                 "iteration ranges, levels, layouts) is materialised and every admissible request compared bit-for-bit with the spec's Truth / "
                 "serving restart / order / times. Non-trivial = >= 2 chunks or >= 2 restarts")
     run.assumptions = ["ghost widths >= 1, equal or different between the axes", "output strides 2 and 4, possibly different between restarts",
